@@ -217,6 +217,7 @@ type ProcSocket struct {
 	Remote string
 	State  string // hex
 	Inode  string
+	Drops  int64 // datagrams the kernel dropped at this socket (UDP only)
 }
 
 func parseHexAddr(s string) string {
@@ -252,7 +253,11 @@ func ProcNet() []ProcSocket {
 			if len(f) < 10 {
 				continue
 			}
-			out = append(out, ProcSocket{Proto: proto, Local: parseHexAddr(f[1]), Remote: parseHexAddr(f[2]), State: f[3], Inode: f[9]})
+			ps := ProcSocket{Proto: proto, Local: parseHexAddr(f[1]), Remote: parseHexAddr(f[2]), State: f[3], Inode: f[9]}
+			if strings.HasPrefix(proto, "udp") && len(f) >= 13 {
+				fmt.Sscan(f[12], &ps.Drops)
+			}
+			out = append(out, ps)
 		}
 	}
 	return out
@@ -276,4 +281,15 @@ func ListeningOf(pid int) []string {
 	}
 	sort.Strings(out)
 	return out
+}
+
+// UDPDrops returns the kernel's drop counter of the UDP socket(s) bound to local ("ip:port").
+func UDPDrops(local string) int64 {
+	var n int64
+	for _, s := range ProcNet() {
+		if strings.HasPrefix(s.Proto, "udp") && s.Local == local {
+			n += s.Drops
+		}
+	}
+	return n
 }
